@@ -313,6 +313,8 @@ func runOnce(sc Scenario, seed string) (outcome, []sim.Event, bool) {
 		r.relabel(sess, label)
 	case "early":
 		r.early(sess, label, seed)
+	case "frostcheat":
+		r.frostCheat(sess, label)
 	default:
 		fatal("unknown scenario kind %q", sc.Kind)
 	}
@@ -951,6 +953,51 @@ func (r *runner) evalPointCheat(sess *protos.Session, label func(party.ID) strin
 		r.deliver(victim, c, "ok")
 		return true
 	})
+}
+
+// frostCheat: one FROST signer answers inconsistently with what it published (rules of FrostAlg.tla); as the
+// specification says, every honest signer must end with an error naming exactly that signer, nobody outputs anything.
+func (r *runner) frostCheat(sess *protos.Session, label func(party.ID) string) {
+	e := r.e
+	e.Log = false
+	su := r.su
+	k := r.byz
+	cfgs := protos.CloneConfigs(su.cfgs)
+	var mk func() protocol.StartFunc
+	switch c := cfgs[k].(type) {
+	case *frost.Config:
+		mk = func() protocol.StartFunc { return frost.Sign(c, su.ids, su.msg) }
+	case *frost.TaprootConfig:
+		mk = func() protocol.StartFunc { return frost.SignTaproot(c, su.ids, su.msg) }
+	default:
+		r.out.Applicable = false
+		r.out.Why = "needs FROST key material"
+		return
+	}
+	protos.FrostSignCheat(sess, k, r.sc.Rule, []byte("sid"), mk)
+	// abort notices are withheld: every honest signer reaches its own verdict
+	e.OnEmit = func(inst party.ID, m *protocol.Message) bool { return m.RoundNumber != 0 }
+	for _, id := range su.ids {
+		e.AddParty(id, r.newParty(sess, id, label(id)))
+	}
+	r.loop(nil)
+	r.out.Reached = true
+	for _, id := range r.honest {
+		st := e.Parties[id].Status()
+		desc := fmt.Sprintf("%s, signer %s deviates (%s): honest signer %s ends %s", su.proto, k, r.sc.Rule, id, st.St)
+		switch {
+		case st.St == "done":
+			if su.judgeResult(st.Result) == "wrong" {
+				r.violate("C03", "wrong-result", desc+" with an invalid signature", "")
+			} else {
+				r.violate("C04", "cheater-not-identified", desc+" although a response was inconsistent (FrostAlg.tla: Detected)", "")
+			}
+		case st.St == "err" && (len(st.Culprits) != 1 || st.Culprits[0] != k):
+			r.violate("C04", "cheater-not-identified", fmt.Sprintf("%s with culprits %v (%v); FrostAlg.tla (BlameComplete) says exactly [%s]", desc, st.Culprits, st.Err, k), "")
+		case st.St == "run":
+			r.violate("C04", "cheater-not-identified", desc+" (still waiting)", "")
+		}
+	}
 }
 
 // presignStage names the step of CMP presigning / signing that produced an error.
